@@ -57,15 +57,46 @@ class Env:
             self.api = _c03_api
 
 
+class IntLike(object):
+    def __init__(self, v):
+        self.v = v
+
+    def __int__(self):
+        return self.v
+
+
+class IndexOnly(object):
+    def __init__(self, v):
+        self.v = v
+
+    def __index__(self):
+        return self.v
+
+
+def build_obj(kind, v):
+    if kind == "float":
+        return float(v)
+    if kind == "intlike":
+        return IntLike(v)
+    if kind == "indexonly":
+        return IndexOnly(v)
+    if kind == "none":
+        return None
+    if kind == "str":
+        return str(v)
+    raise ValueError(kind)
+
+
 def run_case(env, c, idx):
     ffi, lib = env.ffi, env.lib
     t = env.types[c["t"]]
     k, name, v, path = t["k"], t["name"], int(c["v"]), c["path"]
+    x = build_obj(c["obj"], v) if c.get("obj") else v
     out = dict(ok=False, exc=None, rb=None, before=None, after=None)
     try:
         if path == "new":
             try:
-                p = ffi.new(name + "*", v)
+                p = ffi.new(name + "*", x)
             except Exception as e:
                 out["exc"] = type(e).__name__
                 return out
@@ -76,7 +107,7 @@ def run_case(env, c, idx):
             fill(buf, len(buf) // 3, len(buf) // 3, v)
             out["before"] = bytes(buf).hex()
             try:
-                p[1] = v
+                p[1] = x
                 out.update(ok=True, rb=str(int(p[1])))
             except Exception as e:
                 out["exc"] = type(e).__name__
@@ -88,7 +119,7 @@ def run_case(env, c, idx):
             fill(buf, out["off"], ffi.sizeof(name), v)
             out["before"] = bytes(buf).hex()
             try:
-                s.f = v
+                s.f = x
                 out.update(ok=True, rb=str(int(s.f)))
             except Exception as e:
                 out["exc"] = type(e).__name__
@@ -108,7 +139,7 @@ def run_case(env, c, idx):
             fill(buf, 0, len(buf), v, name == "_Bool")
             out["before"] = bytes(buf).hex()
             try:
-                setattr(l, gname, v)
+                setattr(l, gname, x)
                 out.update(ok=True, rb=str(int(getattr(l, gname))), c=str(int(getattr(l, "get_" + gname)())))
             except Exception as e:
                 out["exc"] = type(e).__name__
@@ -116,7 +147,7 @@ def run_case(env, c, idx):
         elif path in ("abi_arg", "api_arg"):
             l = lib if path == "abi_arg" else env.api.lib
             try:
-                r = getattr(l, "id_%d" % k)(v)
+                r = getattr(l, "id_%d" % k)(x)
                 out.update(ok=True, rb=str(int(r)))
             except Exception as e:
                 out["exc"] = type(e).__name__
@@ -125,7 +156,7 @@ def run_case(env, c, idx):
 
             def onerror(exc, val, tb):
                 seen.append(exc.__name__)
-            cb = ffi.callback("%s(void)" % name, lambda: v, error=int(c["E"]), onerror=onerror)
+            cb = ffi.callback("%s(void)" % name, lambda: x, error=int(c["E"]), onerror=onerror)
             r = getattr(lib, "call_%d" % k)(cb)
             out.update(ok=not seen, rb=str(int(r)), exc=seen[0] if seen else None)
         else:
